@@ -1,7 +1,8 @@
 """T8 for C12: regenerate coq/gen/GenC12.v + gen/c12_meta.json from /repo's current tree.
 
-For every public `property` / `lazyproperty` (and the sequence protocol / a few read methods)
-of every proxy class of python-pptx, predict statically what evaluating it can do to the XML:
+For every public `property` / `lazyproperty` (plus the sequence protocol and the read methods
+the property's iteration needs) of every proxy class of python-pptx, predict statically what
+evaluating it can do to the document:
 
   Pure                      no tree / relationship / part mutation reachable
   AddsEmpty [tags]          the only reachable mutations are `get_or_add_x()` of declared
@@ -10,12 +11,17 @@ of every proxy class of python-pptx, predict statically what evaluating it can d
   Creates what              anything else (custom `_new_x`, `_add_x(**attrs)`, insert, remove,
                             attribute assignment on an element, relationship / part creation)
 
-by an AST call graph resolved BY NAME inside src/pptx: `self.x` through the MRO of the concrete
-class, every other `recv.x` to every class of pptx that has a member `x` (join of the effects).
-Metaclass-generated members of the oxml element classes are read from the live classes
-(closures of the generated functions).  Fail-closed: a call that resolves to nothing known goes
-to `unresolved` and the accessor leaves the instance theorem (the check judges it by dynamic
-observation only: `observed-pure` or a violation).
+Method: an AST call graph over src/pptx.  `self.x` resolves through the MRO of the concrete
+class; a receiver whose class can be read off the source (annotated parameter / return type,
+class-level annotation, `__init__` assignment from an annotated parameter, metaclass-generated
+child getter -> class registered for the tag, explicit class name) resolves in that class and
+its subclasses; any other `recv.x` resolves BY NAME to every class that has a member `x` and is
+visible from the caller's architectural layer (oxml < opc < parts/proxies; the import
+discipline that justifies the layering is re-checked here).  When the by-name candidates do not
+all have the same effect the step is `ambiguous` and the accessor is UNRESOLVED: it leaves
+the instance theorem and is judged by the dynamic observation of checks/c12.py only
+(fail-closed: never silently Pure).  Metaclass-generated members of the oxml element classes
+are read from the live classes (closures of the generated functions).
 """
 import ast
 import importlib
@@ -24,7 +30,6 @@ import json
 import os
 import pkgutil
 import sys
-import textwrap
 
 sys.path.insert(0, os.path.dirname(os.path.abspath(__file__)))
 from xsdlib import REPO, Schemas, write_if_changed  # noqa: E402
@@ -44,32 +49,65 @@ PROXY_MODULES = [
     "pptx.parts.chart", "pptx.parts.coreprops", "pptx.parts.embeddedpackage", "pptx.parts.image",
     "pptx.parts.media", "pptx.parts.presentation", "pptx.parts.slide", "pptx.package", "pptx.opc.package",
 ]
+# writer-side helpers living in those modules: never handed to a reader
+NOT_PROXY = {"_MoviePicElementCreator", "_OleObjectElementCreator", "_NotesSlideShapeFactory", "PartFactory",
+             "_PackageLoader", "_ContentTypeMap", "PlotTypeInspector", "AutoShapeType",
+             # strategy objects kept in the private attributes FillFormat._fill / ColorFormat._color: their
+             # members are reached only through the public FillFormat / ColorFormat accessors (in the table)
+             "_Fill", "_BlipFill", "_GradFill", "_GrpFill", "_NoFill", "_NoneFill", "_PattFill", "_SolidFill",
+             "_Color", "_HslColor", "_NoneColor", "_PrstColor", "_SchemeColor", "_ScRgbColor", "_SRgbColor",
+             "_SysColor"}
 # modules whose classes are never the receiver of an attribute access met while READING a loaded
 # presentation unless the source names the class explicitly (then it is resolved exactly):
 # chart-XML / workbook writers, chart-data builders, freeform builder, text fitting, package
-# reader/writer, enumerations and value types.  Excluded from by-name resolution only.
+# reader/writer.  Excluded from by-name resolution only.
 BYNAME_EXCLUDED = ("pptx.chart.xmlwriter", "pptx.chart.data", "pptx.chart.xlsx", "pptx.shapes.freeform",
                    "pptx.text.layout", "pptx.text.fonts", "pptx.media", "pptx.opc.serialized", "pptx.opc.spec",
-                   "pptx.enum.", "pptx.spec", "pptx.util", "pptx.types", "pptx.exc", "pptx.api",
-                   "pptx.oxml.simpletypes", "pptx.oxml.ns", "pptx.opc.packuri", "pptx.opc.constants",
-                   "pptx.opc.shared")
-# writer-side helpers living in those modules: never handed to a reader
-NOT_PROXY = {"_MoviePicElementCreator", "_OleObjectElementCreator", "_NotesSlideShapeFactory", "PartFactory",
-             "_PackageLoader", "_ContentTypeMap"}
+                   "pptx.spec", "pptx.types", "pptx.exc", "pptx.api")
+# classes of these modules are python VALUES (immutable numbers / strings / enum members)
+VALUE_MODULES = ("pptx.enum.", "pptx.util", "pptx.opc.constants", "pptx.opc.packuri", "pptx.oxml.simpletypes",
+                 "pptx.oxml.ns", "pptx.exc")
+VALUE_CLASSES = {"RGBColor", "Category", "PackURI"}
+
+
+def layer_of(module):
+    """Architectural layer of a module: code of layer L only ever holds objects of layers <= L."""
+    if module.startswith(("pptx.oxml", "pptx.opc.oxml", "pptx.util", "pptx.enum", "pptx.exc", "pptx.opc.packuri",
+                          "pptx.opc.constants", "pptx.opc.shared", "pptx.opc.spec", "pptx.spec", "pptx.types")):
+        return 0
+    if module.startswith("pptx.opc"):
+        return 1
+    return 2
+
+
+# runtime imports that cross the layering upwards but only bring in a VALUE class or a constant
+LAYER_IMPORT_ALLOWED = {("pptx.oxml.simpletypes", "pptx.dml.color"),      # RGBColor (a tuple)
+                        ("pptx.oxml.dml.color", "pptx.dml.color"),
+                        # an oxml class (CT_GradientFillProperties) imported through dml.fill's namespace
+                        ("pptx.oxml.shapes.shared", "pptx.dml.fill")}
+
+# `part_related_by(RT.X)` is annotated `-> Part`; the class of the part a relationship of type X
+# targets in a well-formed package.  An ASSUMPTION of the static analysis, validated by the check
+# on every relationship of every corpus package (a contradicting package is reported).
+RT_HINT = {"NOTES_MASTER": "NotesMasterPart", "NOTES_SLIDE": "NotesSlidePart", "SLIDE_LAYOUT": "SlideLayoutPart",
+           "SLIDE_MASTER": "SlideMasterPart", "CORE_PROPERTIES": "CorePropertiesPart",
+           "OFFICE_DOCUMENT": "PresentationPart", "SLIDE": "SlidePart", "CHART": "ChartPart", "IMAGE": "ImagePart"}
+
 # read methods that belong to the iteration named by the property (not properties)
 READ_METHODS = {("Table", "iter_cells"), ("Table", "cell")}
 SEQ_PROTO = ("__iter__", "__len__", "__getitem__")
 
 # Presence-insensitive containers: an element of one of these tags with no attribute, no text and
-# no child says nothing (every attribute and child of its schema type is optional and its absence
-# means `inherit / default`; the list holders mean `no entries`).  Audited by hand against
-# ISO/IEC 29500; the translator re-checks the `all optional` half against /repo/spec (fail-closed).
+# no child says nothing (every attribute and child of its schema type is optional and absence
+# means `inherit / default`; the three list holders mean `no entries`).  Audited by hand against
+# ISO/IEC 29500; the `all optional` half is re-checked here against /repo/spec (fail-closed).
 CONTAINERS = [
     "a:pPr", "a:rPr", "a:endParaRPr", "a:defRPr", "a:tcPr", "a:ln", "a:bodyPr", "a:lstStyle",
     "c:spPr", "p:spPr", "p:grpSpPr",
     "p:sldIdLst", "p:sldMasterIdLst", "p:sldLayoutIdLst",
 ]
 # accessors the property itself names as documented creating ones: (class that defines it, name)
+# -- each docstring says so (the check re-reads the docstrings from the source each run)
 DOCUMENTED = [
     ("Slide", "notes_slide"), ("SlidePart", "notes_slide"),
     ("_Background", "fill"),
@@ -83,57 +121,61 @@ BUILTIN_PURE = set("""len tuple list dict set frozenset isinstance issubclass in
 iter next min max sum any all range super cast type repr id abs round map filter reversed hash divmod ord chr
 hasattr callable format bytearray memoryview object property staticmethod classmethod print vars
 ValueError TypeError KeyError IndexError NotImplementedError AttributeError InvalidXmlError StopIteration
-PackageNotFoundError Exception AssertionError OSError IOError
-Length Emu Pt Inches Cm Mm Centipoints""".split())
-# methods of python / lxml / stdlib values that never change an XML tree
+PackageNotFoundError Exception AssertionError OSError IOError open defaultdict OrderedDict BytesIO StringIO
+""".split())
+# methods of python / lxml / stdlib values that never change an XML tree or the package graph
 NAME_PURE = set("""find findall findtext xpath get iter iterchildren iterancestors iterdescendants itersiblings
 getparent getnext getprevious getroottree getroot getpath index items keys values count startswith endswith split
 rsplit join strip lstrip rstrip lower upper format encode decode hexdigest digest read seek tell getvalue group groups
-match search sub copy deepcopy isdigit zfill ljust rjust partition rpartition title capitalize tobytes splitlines
-fromkeys from_xml to_xml isoformat strftime strptime utcfromtimestamp timestamp total_seconds bit_length
-from_clark_name qn tostring fromstring parse XPath hex lstrip open close namelist getinfo sha1 md5 utcoffset
-as_integer_ratio is_integer nsmap local_part nspfx nsuri clark_name basename dirname splitext normpath
-relpath exists isdir isfile walk listdir abspath cache_clear writestr write warn
+match search sub copy deepcopy isdigit isdecimal zfill ljust rjust partition rpartition title capitalize tobytes
+splitlines fromkeys isoformat strftime strptime utcfromtimestamp timestamp total_seconds bit_length tostring fromstring
+parse XPath hex namelist getinfo sha1 md5 utcoffset as_integer_ratio is_integer basename dirname splitext normpath
+relpath exists isdir isfile walk listdir abspath makeelement defaultdict BytesIO StringIO datetime timedelta now
+astimezone escape is_zipfile ZipFile compile fullmatch finditer date time today utcnow replace
 """.split())
 # names that mutate their receiver when it is an lxml element / a shared collection
 NAME_MUTATING = set("""append extend insert remove pop clear add update discard addprevious addnext set setdefault
-sort reverse popitem remove_all insert_element_before""".split())
+sort reverse popitem""".split())
+PY = "py"   # the type of python values (str, int, list, ...): nothing done to them touches a document
+LX = frozenset(["<plain lxml element>"])   # element of a tag no custom class is registered for
 
 
 # ----------------------------------------------------------------------------- effect lattice
 class Eff:
-    __slots__ = ("tags", "whats", "unres", "prov")
+    __slots__ = ("tags", "whats", "unres", "flags", "prov")
 
-    def __init__(self, tags=(), whats=(), unres=(), prov=None):
+    def __init__(self, tags=(), whats=(), unres=(), flags=(), prov=None):
         self.tags = frozenset(tags)
         self.whats = frozenset(whats)
         self.unres = frozenset(unres)
+        self.flags = frozenset(flags)
         self.prov = prov or {}      # atom -> call chain that reaches it (diagnostics only)
 
     def join(self, o):
-        if o is PURE:
+        if o is PURE or o is None:
             return self
         if self is PURE:
             return o
         pv = dict(o.prov)
         pv.update(self.prov)
-        return Eff(self.tags | o.tags, self.whats | o.whats, self.unres | o.unres, pv)
+        return Eff(self.tags | o.tags, self.whats | o.whats, self.unres | o.unres, self.flags | o.flags, pv)
 
     def via(self, step):
         if self is PURE:
             return self
         pv = {}
-        for a in list(self.tags) + list(self.whats) + list(self.unres):
-            pv[a] = (step,) + tuple(self.prov.get(a, ()))[:12]
-        return Eff(self.tags, self.whats, self.unres, pv)
+        for a in list(self.tags) + list(self.whats) + list(self.unres) + list(self.flags):
+            pv[a] = (step,) + tuple(self.prov.get(a, ()))[:10]
+        return Eff(self.tags, self.whats, self.unres, self.flags, pv)
+
+    def key(self):
+        return (self.tags, self.whats, self.unres, self.flags)
 
     def __eq__(self, o):
-        if not isinstance(o, Eff):
-            return False
-        return self.tags == o.tags and self.whats == o.whats and self.unres == o.unres
+        return isinstance(o, Eff) and self.key() == o.key()
 
     def __hash__(self):
-        return hash((self.tags, self.whats, self.unres))
+        return hash(self.key())
 
     @property
     def level(self):
@@ -143,9 +185,6 @@ class Eff:
             return "AddsEmpty"
         return "Pure"
 
-    def __repr__(self):
-        return "Eff(%s %s %s %s)" % (self.level, sorted(self.tags), sorted(self.whats), sorted(self.unres))
-
 
 PURE = Eff()
 
@@ -154,15 +193,22 @@ def creates(what):
     return Eff(whats=[what])
 
 
+def unres(what):
+    return Eff(unres=[what])
+
+
 # ----------------------------------------------------------------------------- universe
 class Universe:
     def __init__(self):
         import pptx  # noqa
+        from lxml import etree
+
         self.classes = {}        # live class -> ast.ClassDef
         self.by_name = {}        # class name -> [live classes]
         self.funcs = {}          # module-level function name -> [(module, ast.FunctionDef)]
-        self.modtrees = {}
+        self.aliases = {}        # TypeAlias name -> annotation text
         self.notes = []
+        self.modules = {}
         for mi in pkgutil.walk_packages(pptx.__path__, "pptx."):
             try:
                 mod = importlib.import_module(mi.name)
@@ -173,7 +219,7 @@ class Universe:
             if not path or not path.endswith(".py"):
                 continue
             tree = ast.parse(open(path, encoding="utf-8").read())
-            self.modtrees[mi.name] = tree
+            self.modules[mi.name] = tree
             for node in tree.body:
                 if isinstance(node, ast.FunctionDef):
                     self.funcs.setdefault(node.name, []).append((mi.name, node))
@@ -182,11 +228,33 @@ class Universe:
                     if inspect.isclass(live) and live.__module__ == mi.name:
                         self.classes[live] = node
                         self.by_name.setdefault(node.name, []).append(live)
+                elif isinstance(node, ast.AnnAssign) and isinstance(node.target, ast.Name) \
+                        and "TypeAlias" in ast.unparse(node.annotation) and node.value is not None:
+                    v = node.value
+                    self.aliases[node.target.id] = v.value if isinstance(v, ast.Constant) else ast.unparse(v)
+        self.check_layering()
+        # names each module binds to something that is not pptx code and not lxml (PIL, datetime, re, os, io ...)
+        self.ext_names = {}
+        for name, tree in self.modules.items():
+            ext = set()
+            for n in ast.walk(tree):
+                if isinstance(n, ast.Import):
+                    for a in n.names:
+                        if not a.name.startswith(("pptx", "lxml")):
+                            ext.add((a.asname or a.name).split(".")[0])
+                elif isinstance(n, ast.ImportFrom) and n.module and not n.module.startswith(("pptx", "lxml")) \
+                        and n.level == 0:
+                    for a in n.names:
+                        ext.add(a.asname or a.name)
+            self.ext_names[name] = ext
         # members defined in the source text of each class
-        self.src_members = {}    # live class -> {name: {"get": fn, "set": fn, "kind": ...}}
+        self.src_members = {}
+        self.class_ann = {}      # live class -> {attr: annotation text}
         for live, node in self.classes.items():
-            mem = {}
+            mem, ann = {}, {}
             for st in node.body:
+                if isinstance(st, ast.AnnAssign) and isinstance(st.target, ast.Name):
+                    ann[st.target.id] = ast.unparse(st.annotation)
                 if not isinstance(st, ast.FunctionDef):
                     continue
                 decos = [ast.unparse(d) for d in st.decorator_list]
@@ -200,20 +268,74 @@ class Universe:
                 elif "lazyproperty" in decos:
                     mem[st.name] = {"kind": "lazyproperty", "get": st}
                 else:
-                    mem[st.name] = {"kind": "method", "get": st}
+                    mem[st.name] = {"kind": "method", "get": st,
+                                    "cls": "classmethod" in decos, "static": "staticmethod" in decos}
             self.src_members[live] = mem
-        # name index over everything a class exposes (source or metaclass-generated), own dict only
-        self.name_index = {}     # member name -> set of live classes having it in their MRO
+            self.class_ann[live] = ann
+        def sub(d, c):
+            try:
+                return c in d.__mro__
+            except Exception:  # noqa
+                return False
+        self.subclasses = {c: [d for d in self.classes if sub(d, c)] for c in self.classes}
+        # name index: member name -> classes exposing it (source or metaclass-generated)
+        self.name_index = {}
         for live in self.classes:
-            if live.__module__.startswith(BYNAME_EXCLUDED):
+            if live.__module__.startswith(BYNAME_EXCLUDED) or self.is_value(live):
                 continue
             for k in live.__mro__:
                 if k in self.classes:
                     for n in vars(k):
                         self.name_index.setdefault(n, set()).add(live)
+        # tag -> registered element class
+        self.tag_class = {}
+        try:
+            from pptx.oxml import element_class_lookup
+            from pptx.oxml.ns import _nsmap
+            for p, uri in _nsmap.items():
+                try:
+                    items = list(element_class_lookup.get_namespace(uri).items())
+                except Exception:  # noqa
+                    items = []
+                for local, cls in items:
+                    if local is None:
+                        continue
+                    local = local.decode() if isinstance(local, bytes) else local
+                    self.tag_class["%s:%s" % (p, local)] = cls
+        except Exception as e:  # noqa
+            self.notes.append("element class lookup unreadable: %r" % e)
+        self.etree_element = etree._Element
+
+    def check_layering(self):
+        """A module of layer L imports (at run time) only modules of layer <= L."""
+        for name, tree in self.modules.items():
+            L = layer_of(name)
+            if L == 2:
+                continue
+
+            def visit(nodes):
+                for n in nodes:
+                    if isinstance(n, ast.If) and "TYPE_CHECKING" in ast.unparse(n.test):
+                        continue
+                    if isinstance(n, ast.ImportFrom) and n.module and n.module.startswith("pptx"):
+                        if layer_of(n.module) > L and (name, n.module) not in LAYER_IMPORT_ALLOWED:
+                            self.notes.append("layering: %s (layer %d) imports %s (layer %d)" % (
+                                name, L, n.module, layer_of(n.module)))
+                    elif isinstance(n, ast.Import):
+                        for a in n.names:
+                            if a.name.startswith("pptx") and layer_of(a.name) > L:
+                                self.notes.append("layering: %s imports %s" % (name, a.name))
+                    for f in ("body", "orelse", "finalbody", "handlers"):
+                        sub = getattr(n, f, None)
+                        if isinstance(sub, list):
+                            visit(sub)
+            visit(tree.body)
 
     def is_pptx(self, cls):
         return cls in self.classes
+
+    def is_value(self, cls):
+        return cls.__module__.startswith(VALUE_MODULES) or cls.__name__ in VALUE_CLASSES
 
     def lookup(self, ctx, name):
         """Resolve `name` through the MRO of live class ctx: (owner, descriptor) or None."""
@@ -222,9 +344,101 @@ class Universe:
                 return k, vars(k)[name]
         return None
 
+    def expand(self, classes):
+        out = []
+        for c in classes:
+            if isinstance(c, str):
+                continue
+            for d in self.subclasses.get(c, [c]):
+                if d not in out:
+                    out.append(d)
+        return out
+
+    # -- annotations ----------------------------------------------------------------------
+    def ann_type(self, text, ctx=None, depth=0):
+        """annotation text -> frozenset of classes | PY | ('list', T) | None (unknown)"""
+        if text is None or depth > 4:
+            return None
+        text = text.strip().strip("'\"").strip()
+        if text in self.aliases:
+            return self.ann_type(self.aliases[text], ctx, depth + 1)
+        parts = split_top(text, "|")
+        if len(parts) > 1:
+            ts = [self.ann_type(p, ctx, depth + 1) for p in parts if p.strip() != "None"]
+            return join_types(ts)
+        for pre in ("list[", "tuple[", "Iterator[", "Sequence[", "Iterable[", "List[", "Tuple[", "Generator["):
+            if text.startswith(pre) and text.endswith("]"):
+                inner = [p for p in split_top(text[len(pre):-1], ",") if p.strip() not in ("...", "None")]
+                t = join_types([self.ann_type(p, ctx, depth + 1) for p in inner[:1]]) if inner else PY
+                return ("list", t)
+        if text.startswith(("dict[", "Dict[", "Mapping[", "DefaultDict[", "set[", "Set[")):
+            return PY
+        if text.startswith(("Callable[", "type[", "Type[")):
+            return None
+        if text == "Self" and ctx is not None:
+            return frozenset([ctx])
+        if text in ("str", "int", "float", "bool", "bytes", "None", "dt.datetime", "datetime", "dt.date", "date",
+                    "Length", "object") or text.startswith("Literal["):
+            return PY
+        if text in ("ElementBase", "_Element", "etree._Element"):
+            return LX            # only lxml's own members are used on it
+        if text == "BaseOxmlElement":
+            return None          # the root of every element class says nothing: resolve by name
+        if text in self.by_name:
+            cs = self.by_name[text]
+            if all(self.is_value(c) for c in cs):
+                return PY
+            return frozenset(cs)
+        return None
+
+
+def split_top(text, sep):
+    out, depth, cur = [], 0, ""
+    for ch in text:
+        if ch in "[(":
+            depth += 1
+        elif ch in "])":
+            depth -= 1
+        if ch == sep and depth == 0:
+            out.append(cur)
+            cur = ""
+        else:
+            cur += ch
+    out.append(cur)
+    return [p.strip() for p in out if p.strip()]
+
+
+def join_types(ts):
+    """join of types; None (unknown) is absorbing"""
+    ts = list(ts)
+    if not ts or any(t is None for t in ts):
+        return None
+    cls = set()
+    lists = []
+    for t in ts:
+        if t == PY:
+            continue
+        if isinstance(t, tuple):
+            lists.append(t[1])
+        else:
+            cls |= set(t)
+    if lists and not cls:
+        return ("list", join_types(lists))
+    if lists and cls:
+        return None
+    return frozenset(cls) if cls else PY
+
+
+def repr_type(t):
+    if isinstance(t, frozenset):
+        return tuple(sorted(getattr(c, "__qualname__", c) for c in t))
+    if isinstance(t, tuple):
+        return ("list", repr_type(t[1]))
+    return t
+
 
 def generated_info(fn):
-    """A metaclass-generated function: (role, child-declaration object) from its closure."""
+    """A metaclass-generated function: (role, declaration object) from its closure."""
     from pptx.oxml.xmlchemy import _BaseChildElement, BaseAttribute
 
     q = getattr(fn, "__qualname__", "")
@@ -243,6 +457,7 @@ def generated_info(fn):
     return q.split(".")[-1], decl
 
 
+# ----------------------------------------------------------------------------- the analysis
 class Analyzer:
     def __init__(self, U):
         self.U = U
@@ -251,48 +466,58 @@ class Analyzer:
         self.done = set()
         self.changed = False
         self.unknown_calls = {}
+        self.init_types = {}
+        self.ret_types = {}
+        self.hints_used = set()
 
     # -- metaclass-generated members ------------------------------------------------------
-    def generated_effect(self, ctx, owner, name, desc, as_store=False, kwargs=False):
-        from pptx.util import lazyproperty
+    def generated(self, desc):
+        if isinstance(desc, property) and desc.fget is not None:
+            gi = generated_info(desc.fget)
+            return ("prop",) + gi if gi else None
+        if inspect.isfunction(desc):
+            gi = generated_info(desc)
+            return ("fn",) + gi if gi else None
+        return None
 
-        if isinstance(desc, property) and desc.fget is not None and generated_info(desc.fget):
-            if as_store:
-                return creates("attribute assignment")
-            return PURE
-        if not inspect.isfunction(desc):
+    def generated_effect(self, ctx, name, desc, store=False, kwargs=False):
+        g = self.generated(desc)
+        if g is None:
             return None
-        gi = generated_info(desc)
-        if gi is None:
-            return None
-        role, decl = gi
+        kind, role, decl = g
         tag = getattr(decl, "_nsptagname", None)
+        if kind == "prop":
+            if store:
+                return creates("attribute assignment on an element")
+            return PURE
         if role in ("new_child_element", "get_child_element", "get_child_element_list", "get_group_member_element",
                     "get_attr_value"):
             return PURE
-        if role in ("_insert_child",):
+        if role == "set_attr_value":
+            return creates("attribute assignment")
+        if role == "_insert_child":
             return creates("insert <%s>" % tag)
         if role in ("_remove_child", "_remove_choice_group"):
             return creates("remove child")
-        if role in ("get_or_change_to_child",):
+        if role == "get_or_change_to_child":
             return creates("change choice to <%s>" % tag)
         if role in ("_add_child", "add_child", "get_or_add_child"):
             prop = decl._prop_name
-            parts = []
-            # the pieces the generated body calls through getattr(obj, name)
-            for piece in (("_add_" + prop,) if role != "_add_child" else ()) + ("_new_" + prop, "_insert_" + prop):
-                r = self.U.lookup(ctx, piece)
-                if r is None:
-                    return Eff(unres=["generated %s: no %s" % (name, piece)])
-                parts.append((piece,) + r)
+            pieces = (("_add_" + prop,) if role != "_add_child" else ()) + ("_new_" + prop, "_insert_" + prop)
             default_new = True
             eff = PURE
-            for piece, k, d in parts:
-                g = generated_info(d) if inspect.isfunction(d) else None
-                if g is None:
-                    # hand-written override: analyse it, and the new element is not known to be empty
+            for piece in pieces:
+                r = self.U.lookup(ctx, piece)
+                if r is None:
+                    return unres("generated %s: no %s" % (name, piece))
+                if self.generated(r[1]) is None:
+                    e = self.member_effect(ctx, piece, call=True)
+                    if piece.startswith("_insert_") and e is not None and not e.unres and not e.tags \
+                            and all(w.startswith("lxml-insert:") for w in e.whats):
+                        continue      # hand-written inserter that only places the child it is given
+                    # hand-written override: analyse it; the new element is not known to be empty
                     default_new = False
-                    eff = eff.join(self.member_effect(ctx, piece, call=True))
+                    eff = eff.join(e)
             if role == "add_child":
                 return eff.join(creates("add <%s>" % tag))
             if kwargs:
@@ -300,52 +525,259 @@ class Analyzer:
             if default_new:
                 return eff.join(Eff(tags=[tag]))
             return eff.join(creates("add <%s> (non-empty default)" % tag))
-        return Eff(unres=["generated role %s" % role])
+        return unres("generated role %s" % role)
 
-    # -- resolution -----------------------------------------------------------------------
-    def member_effect(self, ctx, name, call=False, store=False, kwargs=False):
-        """Effect of evaluating ctx_instance.name (load / call / store) with self : ctx."""
-        from pptx.util import lazyproperty
+    def generated_type(self, desc):
+        """type of the value a generated member hands back"""
+        g = self.generated(desc)
+        if g is None:
+            return None
+        kind, role, decl = g
+        tag = getattr(decl, "_nsptagname", None)
+        if role == "get_attr_value":
+            return PY
+        if role in ("get_child_element", "_add_child", "add_child", "get_or_add_child", "new_child_element",
+                    "get_or_change_to_child", "_insert_child"):
+            c = self.U.tag_class.get(tag)
+            if c is None and tag:
+                return LX
+            return frozenset([c]) if c in self.U.classes else None
+        if role == "get_child_element_list":
+            c = self.U.tag_class.get(tag)
+            if c is None and tag:
+                return ("list", LX)
+            return ("list", frozenset([c])) if c in self.U.classes else ("list", None)
+        if role == "get_group_member_element":
+            cs = [self.U.tag_class.get(t) for t in decl._member_nsptagnames]
+            if all(c is not None and c in self.U.classes for c in cs):
+                return frozenset(cs)
+            return None
+        return None
 
+    # -- members --------------------------------------------------------------------------
+    def member_effect(self, ctx, name, call=False, store=False, kwargs=False, consts=None, node=None):
+        """Effect of evaluating ctx_instance.name (load / call / store) with self : ctx; None if ctx
+        has no such member at all (plain instance attribute)."""
         r = self.U.lookup(ctx, name)
         if r is None:
             return None
         owner, desc = r
         if not self.U.is_pptx(owner):
-            return None
-        g = self.generated_effect(ctx, owner, name, desc, as_store=store, kwargs=kwargs)
+            # member inherited from lxml / python (ElementBase, Mapping, Sequence, tuple, str ...)
+            if store:
+                return creates("assignment to .%s of an element" % name) if issubclass(ctx, self.U.etree_element) else PURE
+            if not call:
+                return PURE
+            if name in NAME_MUTATING and not self.U.is_value(ctx):
+                if name in ("append", "insert", "addprevious", "addnext", "extend"):
+                    return creates("lxml-insert: .%s() on an element" % name)
+                return creates("lxml-mutate: .%s() on an element" % name)
+            eff = PURE
+            if not issubclass(ctx, self.U.etree_element):
+                # Mapping / Sequence mix-ins call back into the class's own protocol
+                for proto in ("__iter__", "__getitem__", "__len__", "__contains__"):
+                    rr = self.U.lookup(ctx, proto)
+                    if rr and self.U.is_pptx(rr[0]) and proto != name:
+                        eff = eff.join(self.member_effect(ctx, proto, call=True))
+            return eff
+        g = self.generated_effect(ctx, name, desc, store=store, kwargs=kwargs)
         if g is not None:
             return g
         mem = self.U.src_members.get(owner, {}).get(name)
         if mem is None:
-            # class attribute that is not a function (constant, declaration object, alias)
             if isinstance(desc, (staticmethod, classmethod)) or inspect.isfunction(desc):
-                return Eff(unres=["%s.%s has no source" % (owner.__name__, name)])
+                return unres("%s.%s has no source" % (owner.__name__, name))
+            return PURE            # class attribute (constant, declaration object, alias)
+        if store:
+            if mem["kind"] == "property" and "set" in mem:
+                return self.func_effect(ctx, owner, name, "set", mem["set"], None)
+            return PURE            # read-only property: AttributeError, nothing happens
+        if mem["kind"] in ("property", "lazyproperty"):
+            return self.func_effect(ctx, owner, name, "get", mem["get"], None)
+        if call:
+            binding = self.bind_consts(mem["get"], node, consts, skip_self=not mem.get("static"))
+            return self.func_effect(ctx, owner, name, "get", mem["get"], binding)
+        return PURE   # bound-method reference without a call
+
+    def member_effect_at(self, ctx, owner, name, call=False, store=False, kwargs=False, consts=None, node=None):
+        """the member `name` as defined on `owner` (a class of ctx's MRO), evaluated with self : ctx"""
+        desc = vars(owner)[name]
+        g = self.generated_effect(ctx, name, desc, store=store, kwargs=kwargs)
+        if g is not None:
+            return g
+        mem = self.U.src_members.get(owner, {}).get(name)
+        if mem is None:
             return PURE
         if store:
             if mem["kind"] == "property" and "set" in mem:
-                return self.func_effect(ctx, owner, name, "set", mem["set"])
-            if mem["kind"] in ("property", "lazyproperty"):
-                return creates("assignment to read-only property")
+                return self.func_effect(ctx, owner, name, "set", mem["set"], None)
             return PURE
         if mem["kind"] in ("property", "lazyproperty"):
-            return self.func_effect(ctx, owner, name, "get", mem["get"])
+            return self.func_effect(ctx, owner, name, "get", mem["get"], None)
         if call:
-            return self.func_effect(ctx, owner, name, "get", mem["get"])
-        return PURE   # bound-method reference without a call
+            binding = self.bind_consts(mem["get"], node, consts, skip_self=not mem.get("static"))
+            return self.func_effect(ctx, owner, name, "get", mem["get"], binding)
+        return PURE
 
-    def by_name_effect(self, name, call=False, store=False, kwargs=False):
-        cands = self.U.name_index.get(name)
-        if not cands:
+    def member_type(self, ctx, name, call=False):
+        for k in ctx.__mro__:
+            if k in self.U.classes and name in self.U.class_ann[k]:
+                t = self.U.ann_type(self.U.class_ann[k][name], ctx)
+                if t is not None:
+                    return t
+            if name in vars(k):
+                break
+        r = self.U.lookup(ctx, name)
+        if r is None:
+            return self.instance_attr_type(ctx, name)
+        owner, desc = r
+        if not self.U.is_pptx(owner):
+            return PY if name in ("text", "tail", "tag", "attrib", "nsmap", "sourceline") else None
+        if self.generated(desc) is not None:
+            return self.generated_type(desc)
+        mem = self.U.src_members.get(owner, {}).get(name)
+        if mem is None:
+            ann = self.U.class_ann.get(owner, {}).get(name)
+            return self.U.ann_type(ann, ctx) if ann else None
+        fn = mem.get("get")
+        if fn is None:
             return None
-        eff = PURE
-        hit = False
-        for ctx in sorted(cands, key=lambda c: (c.__module__, c.__qualname__)):
-            e = self.member_effect(ctx, name, call=call, store=store, kwargs=kwargs)
+        if mem["kind"] == "method" and not call:
+            return None
+        t = self.U.ann_type(ast.unparse(fn.returns), ctx) if fn.returns is not None else None
+        if t is None:
+            t = self.infer_return(ctx, fn, owner)
+        return t
+
+    def infer_return(self, ctx, fn, owner=None):
+        key = (ctx, id(fn))
+        if key in self.ret_types:
+            return self.ret_types[key]
+        self.ret_types[key] = None
+        rets = [n.value for n in ast.walk(fn) if isinstance(n, ast.Return) and n.value is not None]
+        if any(isinstance(n, (ast.Yield, ast.YieldFrom)) for n in ast.walk(fn)):
+            ys = [n.value for n in ast.walk(fn) if isinstance(n, ast.Yield) and n.value is not None]
+            if ys and not any(isinstance(n, ast.YieldFrom) for n in ast.walk(fn)):
+                mod = owner.__module__ if inspect.isclass(owner) else (owner or "pptx")
+                b = Body(self, ctx, fn, mod, None)
+                t = join_types([b.type_of(y) for y in ys])
+                t = ("list", t) if t is not None else None
+            else:
+                t = None
+            self.ret_types[key] = t
+            return t
+        if not rets:
+            t = None
+        else:
+            mod = owner.__module__ if inspect.isclass(owner) else (owner or "pptx")
+            b = Body(self, ctx, fn, mod, None)
+            t = join_types([b.type_of(r) for r in rets])
+        self.ret_types[key] = t
+        return t
+
+    def infer_return_old(self, ctx, fn):
+        rets = [n.value for n in ast.walk(fn) if isinstance(n, ast.Return) and n.value is not None]
+        ts = []
+        for r in rets:
+            if isinstance(r, ast.Call) and isinstance(r.func, ast.Name) and r.func.id in self.U.by_name:
+                cs = self.U.by_name[r.func.id]
+                ts.append(PY if all(self.U.is_value(c) for c in cs) else frozenset(cs))
+            elif isinstance(r, ast.Constant):
+                ts.append(PY)
+            else:
+                return None
+        return join_types(ts) if ts else None
+
+    def instance_attr_type(self, ctx, attr):
+        """type of self.attr for a plain instance attribute: class-level annotation or an assignment
+        from an annotated __init__ parameter."""
+        key = (ctx, attr)
+        if key in self.init_types:
+            return self.init_types[key]
+        self.init_types[key] = None
+        t = None
+        for k in ctx.__mro__:
+            if k not in self.U.classes:
+                continue
+            ann = self.U.class_ann[k].get(attr)
+            if ann:
+                t = self.U.ann_type(ann, ctx)
+                if t is not None:
+                    break
+            init = self.U.src_members[k].get("__init__")
+            if init:
+                fn = init["get"]
+                params = {a.arg: (ast.unparse(a.annotation) if a.annotation is not None else None)
+                          for a in fn.args.args + fn.args.kwonlyargs}
+                found = False
+                for st in ast.walk(fn):
+                    if isinstance(st, (ast.Assign, ast.AnnAssign)):
+                        targets = st.targets if isinstance(st, ast.Assign) else [st.target]
+                        for tg in targets:
+                            if isinstance(tg, ast.Attribute) and isinstance(tg.value, ast.Name) \
+                                    and tg.value.id == fn.args.args[0].arg and tg.attr == attr:
+                                found = True
+                                v = st.value
+                                if isinstance(st, ast.AnnAssign):
+                                    t = self.U.ann_type(ast.unparse(st.annotation), ctx)
+                                elif isinstance(v, ast.Name) and params.get(v.id):
+                                    t = self.U.ann_type(params[v.id], ctx)
+                                elif isinstance(v, (ast.Constant, ast.List, ast.Dict, ast.Tuple)):
+                                    t = PY
+                if found:
+                    break
+        self.init_types[key] = t
+        return t
+
+    def bind_consts(self, fn, node, consts, skip_self=True):
+        """constant string arguments of a call, by parameter name (for getattr(x, param) bodies)"""
+        if node is None:
+            return None
+        params = [a.arg for a in fn.args.args]
+        if skip_self and params:
+            params = params[1:]
+        out = {}
+
+        def val(e):
+            if isinstance(e, ast.Constant) and isinstance(e.value, str):
+                return e.value
+            if isinstance(e, ast.Name) and consts and e.id in consts:
+                return consts[e.id]
+            return None
+        for p, a in zip(params, node.args):
+            v = val(a)
+            if v is not None:
+                out[p] = v
+        for kw in node.keywords:
+            if kw.arg:
+                v = val(kw.value)
+                if v is not None:
+                    out[kw.arg] = v
+        return out or None
+
+    def by_name(self, layer, name, what):
+        """candidates visible from `layer` that have member `name`; what(ctx) -> Eff or None.
+        exact when all candidates agree, otherwise ambiguous (unresolved)."""
+        cands = [c for c in self.U.name_index.get(name, ()) if layer_of(c.__module__) <= layer]
+        effs = []
+        for c in sorted(cands, key=lambda c: (c.__module__, c.__qualname__)):
+            e = what(c)
             if e is not None:
-                hit = True
-                eff = eff.join(e)
-        return eff if hit else None
+                effs.append((c, e))
+        if not effs:
+            return None
+        first = effs[0][1]
+        if all(e == first for _c, e in effs):
+            return first
+        # levels agree and nothing unresolved: join (tags / reasons may differ between classes)
+        if not any(e.unres for _c, e in effs) and len({e.level for _c, e in effs}) == 1:
+            out = PURE
+            for _c, e in effs:
+                out = out.join(e)
+            return out
+        levels = sorted({e.level + ("?" if e.unres else "") for _c, e in effs})
+        imp = [c.__name__ for c, e in effs if e.level != "Pure" or e.unres][:4]
+        return unres("ambiguous .%s (%d classes: %s; e.g. %s)" % (name, len(effs), "/".join(levels), ",".join(imp)))
 
     def class_ctor_effect(self, cls):
         eff = PURE
@@ -354,17 +786,20 @@ class Analyzer:
             if r and self.U.is_pptx(r[0]):
                 mem = self.U.src_members[r[0]].get(nm)
                 if mem:
-                    eff = eff.join(self.func_effect(cls, r[0], nm, "get", mem["get"]))
+                    eff = eff.join(self.func_effect(cls, r[0], nm, "get", mem["get"], None))
         return eff
 
     # -- function bodies ------------------------------------------------------------------
-    def func_effect(self, ctx, owner, name, which, fn):
-        key = (ctx, owner, name, which)
+    def func_effect(self, ctx, owner, name, which, fn, binding):
+        bkey = tuple(sorted(binding.items())) if binding else ()
+        key = (ctx, owner, name, which, bkey)
         if key in self.inprog or key in self.done:
             return self.memo.get(key, PURE)
         self.inprog.add(key)
         try:
-            eff = self.body_effect(ctx, fn).via("%s.%s" % (getattr(owner, "__name__", owner), name))
+            mod = owner if isinstance(owner, str) else owner.__module__
+            eff = Body(self, ctx, fn, mod, binding, owner).run().via(
+                "%s.%s" % (getattr(owner, "__name__", owner), name))
         finally:
             self.inprog.discard(key)
         self.done.add(key)
@@ -373,251 +808,592 @@ class Analyzer:
             self.changed = True
         return eff
 
-    def modfunc_effect(self, name):
+    def modfunc_effect(self, name, node=None, consts=None):
         eff = PURE
         for mod, fn in self.U.funcs[name]:
-            eff = eff.join(self.func_effect(None, mod, name, "fn", fn))
+            binding = self.bind_consts(fn, node, consts, skip_self=False)
+            eff = eff.join(self.func_effect(None, mod, name, "fn", fn, binding))
         return eff
 
-    def body_effect(self, ctx, fn):
-        eff = PURE
-        fresh = set()      # local names bound to fresh python containers
-        localcls = {}      # local names bound to (a choice of) pptx classes
-        args = {a.arg for a in fn.args.args + fn.args.kwonlyargs}
-        selfname = fn.args.args[0].arg if (fn.args.args and ctx is not None) else None
-        is_cls = any(ast.unparse(d) == "classmethod" for d in fn.decorator_list)
+    def modfunc_type(self, name):
+        ts = []
+        for mod, fn in self.U.funcs[name]:
+            t = self.U.ann_type(ast.unparse(fn.returns)) if fn.returns is not None else None
+            if t is None:
+                t = self.infer_return(None, fn, mod)
+            ts.append(t)
+        return join_types(ts)
 
-        def fresh_expr(e):
-            if isinstance(e, (ast.List, ast.Dict, ast.Set, ast.ListComp, ast.DictComp, ast.SetComp, ast.Tuple,
-                              ast.Constant, ast.JoinedStr)):
-                return True
-            if isinstance(e, ast.Call) and isinstance(e.func, ast.Name) and e.func.id in (
-                    "list", "dict", "set", "tuple", "sorted", "bytearray", "OrderedDict", "defaultdict", "Counter",
-                    "BytesIO", "StringIO"):
-                return True
-            if isinstance(e, ast.Call) and isinstance(e.func, ast.Attribute) and e.func.attr in (
-                    "split", "findall", "xpath", "values", "keys", "items", "copy", "OrderedDict", "BytesIO"):
-                return True
+
+class Body:
+    """Effect of one function body with self : ctx."""
+
+    def __init__(self, A, ctx, fn, module, consts, owner=None):
+        self.A, self.U, self.ctx, self.fn, self.module = A, A.U, ctx, fn, module
+        self.owner = owner if inspect.isclass(owner) else None
+        self.layer = layer_of(module)
+        self.consts = dict(consts or {})
+        decos = [ast.unparse(d) for d in fn.decorator_list]
+        self.is_cls = "classmethod" in decos
+        self.is_static = "staticmethod" in decos
+        a = fn.args
+        self.params = {x.arg: (ast.unparse(x.annotation) if x.annotation is not None else None)
+                       for x in a.posonlyargs + a.args + a.kwonlyargs}
+        if a.vararg:
+            self.params[a.vararg.arg] = None
+        if a.kwarg:
+            self.params[a.kwarg.arg] = None
+        self.selfname = a.args[0].arg if (a.args and ctx is not None and not self.is_static) else None
+        self.nested = {n.name for n in ast.walk(fn) if isinstance(n, ast.FunctionDef) and n is not fn}
+        self.ext = self.U.ext_names.get(module, set())
+        self.assigns = {}     # local name -> [(kind, expr)]
+        self.tmemo = {}
+        self.collect_locals()
+
+    # -- locals ---------------------------------------------------------------------------
+    def collect_locals(self):
+        def bind(target, value, it=False):
+            if isinstance(target, ast.Name):
+                self.assigns.setdefault(target.id, []).append(("iter", value) if it else ("val", value))
+            elif isinstance(target, (ast.Tuple, ast.List)):
+                if not it and isinstance(value, (ast.Tuple, ast.List)) and len(value.elts) == len(target.elts):
+                    for t, v in zip(target.elts, value.elts):
+                        bind(t, v)
+                    return
+                for t in target.elts:
+                    if isinstance(t, ast.Name):
+                        self.assigns.setdefault(t.id, []).append(("unk", None))
+        for n in ast.walk(self.fn):
+            if isinstance(n, ast.Assign):
+                for t in n.targets:
+                    bind(t, n.value)
+            elif isinstance(n, ast.AnnAssign) and n.value is not None:
+                bind(n.target, n.value)
+                if isinstance(n.target, ast.Name):
+                    self.assigns[n.target.id].append(("ann", n.annotation))
+            elif isinstance(n, ast.AugAssign):
+                bind(n.target, n.value)
+            elif isinstance(n, (ast.For, ast.comprehension)):
+                bind(n.target, n.iter, it=True)
+            elif isinstance(n, ast.With):
+                for it in n.items:
+                    if it.optional_vars is not None:
+                        bind(it.optional_vars, it.context_expr)
+            elif isinstance(n, ast.NamedExpr):
+                bind(n.target, n.value)
+            elif isinstance(n, ast.ExceptHandler) and n.name:
+                self.assigns.setdefault(n.name, []).append(("py", None))
+        for nf in ast.walk(self.fn):
+            if isinstance(nf, (ast.FunctionDef, ast.Lambda)) and nf is not self.fn:
+                for x in nf.args.args + nf.args.kwonlyargs:
+                    ann = getattr(x, "annotation", None)
+                    self.assigns.setdefault(x.arg, []).append(("ann", ann) if ann is not None else ("unk", None))
+
+    # -- types ----------------------------------------------------------------------------
+    def is_self(self, e):
+        if isinstance(e, ast.Name) and self.selfname and e.id == self.selfname and not self.is_cls:
+            return True
+        return False
+
+    def super_after(self, e):
+        """super() / super(C, self): the class after which the MRO search starts, else None"""
+        if isinstance(e, ast.Call) and isinstance(e.func, ast.Name) and e.func.id == "super" and self.ctx is not None:
+            if e.args and isinstance(e.args[0], ast.Name) and e.args[0].id in self.U.by_name:
+                for c in self.U.by_name[e.args[0].id]:
+                    if c in self.ctx.__mro__:
+                        return c
+            return self.owner if self.owner in self.ctx.__mro__ else None
+        return None
+
+    def fresh(self, e, depth=0):
+        """expression denotes a python container / object created inside this function"""
+        if depth > 6:
             return False
+        if isinstance(e, (ast.List, ast.Dict, ast.Set, ast.ListComp, ast.DictComp, ast.SetComp, ast.Tuple,
+                          ast.Constant, ast.JoinedStr, ast.GeneratorExp)):
+            return True
+        if isinstance(e, ast.Subscript):
+            return self.fresh(e.value, depth + 1)
+        if isinstance(e, ast.Call):
+            f = e.func
+            if isinstance(f, ast.Name) and f.id in ("list", "dict", "set", "tuple", "sorted", "bytearray", "OrderedDict",
+                                                    "defaultdict", "Counter", "BytesIO", "StringIO"):
+                return True
+            if isinstance(f, ast.Attribute) and f.attr in ("defaultdict", "OrderedDict", "BytesIO", "StringIO", "split",
+                                                           "findall", "xpath", "copy"):
+                return True
+            if isinstance(f, ast.Attribute) and f.attr == "setdefault":
+                return self.fresh(f.value, depth + 1)
+            if isinstance(f, ast.Name) and f.id in self.U.by_name and f.id not in self.params:
+                return True      # a newly constructed object
+            if isinstance(f, ast.Name) and f.id in ("OxmlElement", "parse_xml", "parse_from_template", "deepcopy"):
+                return True      # a loose element, not (yet) part of any document
+            if isinstance(f, ast.Attribute) and f.attr in ("deepcopy", "makeelement", "fromstring"):
+                return True
+            if isinstance(f, ast.Attribute) and f.attr.startswith("new") and isinstance(f.value, ast.Name) \
+                    and f.value.id in self.U.by_name and f.value.id not in self.params \
+                    and all(issubclass(c, self.U.etree_element) for c in self.U.by_name[f.value.id]):
+                return True      # CT_X.new...(): a loose element
+            return False
+        if isinstance(e, ast.Name):
+            if e.id in self.params or e.id == self.selfname:
+                return False
+            vals = self.assigns.get(e.id)
+            if not vals:
+                return False
+            vals = [(k, v) for k, v in vals if k != "ann"]
+            return bool(vals) and all(k == "val" and self.fresh(v, depth + 1) for k, v in vals)
+        return False
 
-        def classes_of(e):
-            """pptx classes an expression may denote (Name of a class, dict-of-classes subscript, IfExp)."""
-            if isinstance(e, ast.Name) and e.id in self.U.by_name:
-                return list(self.U.by_name[e.id])
-            if isinstance(e, ast.Name) and e.id in localcls:
-                return localcls[e.id]
-            if isinstance(e, ast.Subscript) and isinstance(e.value, ast.Dict):
+    def type_of(self, e, depth=0):
+        if depth > 8:
+            return None
+        k = ast.dump(e)
+        if k in self.tmemo:
+            return self.tmemo[k]
+        self.tmemo[k] = None
+        t = self._type_of(e, depth)
+        self.tmemo[k] = t
+        return t
+
+    def _type_of(self, e, depth):
+        U, A = self.U, self.A
+        if isinstance(e, ast.ListComp):
+            return ("list", self.type_of(e.elt, depth + 1))
+        if isinstance(e, (ast.Constant, ast.JoinedStr, ast.List, ast.Dict, ast.Set, ast.DictComp, ast.SetComp,
+                          ast.Compare, ast.UnaryOp, ast.Tuple, ast.BinOp)):
+            return PY
+        if self.is_self(e):
+            return frozenset([self.ctx]) if self.ctx is not None else None
+        if isinstance(e, ast.Name):
+            ts = []
+            if e.id in self.ext and e.id not in self.params and e.id not in self.assigns:
+                return PY
+            if e.id in self.params:
+                ts.append(U.ann_type(self.params[e.id], self.ctx))
+            for kind, v in self.assigns.get(e.id, ()):
+                if kind == "val":
+                    ts.append(self.type_of(v, depth + 1))
+                elif kind == "iter":
+                    t = self.type_of(v, depth + 1)
+                    if isinstance(t, frozenset):
+                        it = self.members_type(t, "__iter__", call=True)
+                        ts.append(it[1] if isinstance(it, tuple) else None)
+                    else:
+                        ts.append(t[1] if isinstance(t, tuple) else None)
+                elif kind == "ann":
+                    ts.append(U.ann_type(ast.unparse(v), self.ctx))
+                elif kind == "py":
+                    ts.append(PY)
+                else:
+                    ts.append(None)
+            return join_types(ts) if ts else None
+        if isinstance(e, ast.Attribute):
+            t = self.type_of(e.value, depth + 1)
+            if t == PY:
+                return PY
+            if isinstance(t, frozenset):
+                return self.members_type(t, e.attr)
+            if t is None and not (e.attr.startswith("__") and e.attr.endswith("__")):
+                # unknown receiver: a type only if every visible class with this member gives the same one
+                cands = [c for c in U.name_index.get(e.attr, ()) if layer_of(c.__module__) <= self.layer]
+                ts = {repr_type(A.member_type(c, e.attr)) for c in cands}
+                if len(ts) == 1 and cands:
+                    return A.member_type(sorted(cands, key=lambda c: c.__qualname__)[0], e.attr)
+            return None
+        if isinstance(e, ast.Call):
+            f = e.func
+            if isinstance(f, ast.Name):
+                if f.id == "cast" and len(e.args) == 2:
+                    a0 = e.args[0]
+                    txt = a0.value if isinstance(a0, ast.Constant) else ast.unparse(a0)
+                    return U.ann_type(txt, self.ctx)
+                if f.id in ("str", "int", "float", "bool", "len", "bytes", "repr", "hash", "sum", "min", "max", "abs",
+                            "round", "dict", "set", "isinstance", "hasattr", "id", "ord"):
+                    return PY
+                if f.id in ("tuple", "list", "sorted", "reversed", "iter") and e.args:
+                    t = self.type_of(e.args[0], depth + 1)
+                    return t if isinstance(t, tuple) else (PY if t == PY else None)
+                if f.id in U.by_name and f.id not in self.params:
+                    cs = U.by_name[f.id]
+                    return PY if all(U.is_value(c) for c in cs) else frozenset(cs)
+                if f.id in U.funcs and f.id not in self.params:
+                    return A.modfunc_type(f.id)
+                if self.is_cls and f.id == self.selfname and self.ctx is not None:
+                    return frozenset([self.ctx])
+                return None
+            if isinstance(f, ast.Attribute):
+                if f.attr == "part_related_by" and e.args and isinstance(e.args[0], ast.Attribute) \
+                        and isinstance(e.args[0].value, ast.Name) and e.args[0].value.id == "RT" \
+                        and e.args[0].attr in RT_HINT and RT_HINT[e.args[0].attr] in U.by_name:
+                    A.hints_used.add(e.args[0].attr)
+                    return frozenset(U.by_name[RT_HINT[e.args[0].attr]])
+                cs = self.class_of(f.value)
+                if cs:
+                    return join_types([A.member_type(c, f.attr, call=True) for c in cs])
+                t = self.type_of(f.value, depth + 1)
+                if t == PY:
+                    return PY
+                if isinstance(t, frozenset):
+                    return self.members_type(t, f.attr, call=True)
+            return None
+        if isinstance(e, ast.Subscript):
+            t = self.type_of(e.value, depth + 1)
+            if isinstance(t, tuple):
+                return t if isinstance(e.slice, ast.Slice) else t[1]
+            if t == PY:
+                return PY
+            if isinstance(t, frozenset) and not isinstance(e.slice, ast.Slice):
+                return self.members_type(t, "__getitem__", call=True)
+            return None
+        if isinstance(e, ast.IfExp):
+            return join_types([self.type_of(e.body, depth + 1), self.type_of(e.orelse, depth + 1)])
+        if isinstance(e, ast.BoolOp):
+            return join_types([self.type_of(v, depth + 1) for v in e.values])
+        if isinstance(e, ast.NamedExpr):
+            return self.type_of(e.value, depth + 1)
+        return None
+
+    def members_type(self, t, name, call=False):
+        """type of recv.name for recv : t (classes and their subclasses; those lacking the member are skipped)"""
+        A, U = self.A, self.U
+        ts = []
+        for c in t:
+            if isinstance(c, str):
+                ts.append(None if call else PY)
+        for c in U.expand(t):
+            if U.is_value(c):
+                ts.append(PY)
+                continue
+            if U.lookup(c, name) is None and A.instance_attr_type(c, name) is None:
+                continue
+            ts.append(A.member_type(c, name, call=call))
+        return join_types(ts) if ts else None
+
+    def class_of(self, e):
+        """pptx classes an expression may denote AS CLASS OBJECTS (Name, dict-of-classes, cls)."""
+        U = self.U
+        if isinstance(e, ast.Name):
+            if self.is_cls and e.id == self.selfname and self.ctx is not None:
+                return [self.ctx]
+            if e.id in U.by_name and e.id not in self.params and e.id not in self.assigns:
+                return list(U.by_name[e.id])
+            if e.id in self.assigns and e.id not in self.params:
                 out = []
-                for v in e.value.values:
-                    c = classes_of(v)
-                    if not c:
+                for kind, v in self.assigns[e.id]:
+                    if kind != "val":
                         return []
-                    out += c
-                return out
-            if isinstance(e, ast.IfExp):
-                a, b = classes_of(e.body), classes_of(e.orelse)
-                return a + b if a and b else []
-            if isinstance(e, ast.Call) and isinstance(e.func, ast.Name) and e.func.id in self.U.by_name \
-                    and e.func.id not in args:
-                return list(self.U.by_name[e.func.id])     # an instance of the class: same member table
-            if isinstance(e, ast.Call) and isinstance(e.func, ast.Attribute) and e.func.attr == "get" \
-                    and isinstance(e.func.value, ast.Dict):
-                out = []
-                for v in list(e.func.value.values) + list(e.args[1:]):
-                    c = classes_of(v)
+                    c = self.class_of(v)
                     if not c:
                         return []
                     out += c
                 return out
             return []
+        if isinstance(e, ast.Subscript) and isinstance(e.value, ast.Dict):
+            out = []
+            for v in e.value.values:
+                c = self.class_of(v)
+                if not c:
+                    return []
+                out += c
+            return out
+        if isinstance(e, ast.IfExp):
+            a, b = self.class_of(e.body), self.class_of(e.orelse)
+            return a + b if a and b else []
+        if isinstance(e, ast.Call) and isinstance(e.func, ast.Attribute) and e.func.attr == "get" \
+                and isinstance(e.func.value, ast.Dict):
+            out = []
+            for v in list(e.func.value.values) + list(e.args[1:]):
+                c = self.class_of(v)
+                if not c:
+                    return []
+                out += c
+            return out
+        return []
 
-        # pre-pass: local bindings
-        for node in ast.walk(fn):
-            if isinstance(node, ast.Assign) and len(node.targets) == 1 and isinstance(node.targets[0], ast.Name):
-                t = node.targets[0].id
-                if fresh_expr(node.value):
-                    fresh.add(t)
-                cs = classes_of(node.value)
-                if cs:
-                    localcls[t] = cs
-            elif isinstance(node, ast.AnnAssign) and isinstance(node.target, ast.Name) and node.value is not None:
-                if fresh_expr(node.value):
-                    fresh.add(node.target.id)
-        # a name also assigned from something not fresh is not fresh
-        for node in ast.walk(fn):
-            if isinstance(node, ast.Assign):
-                for t in node.targets:
-                    if isinstance(t, ast.Name) and t.id in fresh and not fresh_expr(node.value):
-                        fresh.discard(t.id)
+    def callables_of(self, e):
+        """bound methods / module functions / classes an expression may denote: [(ctx|None|'class', name|cls)]"""
+        if isinstance(e, ast.Name) and e.id not in self.params and e.id not in self.assigns:
+            if e.id in self.U.by_name:
+                return [("class", c) for c in self.U.by_name[e.id]]
+            if e.id in self.U.funcs:
+                return [(None, e.id)]
+        if isinstance(e, ast.Call) and isinstance(e.func, ast.Attribute) and e.func.attr == "get" \
+                and isinstance(e.func.value, ast.Dict):
+            out = []
+            for v in list(e.func.value.values) + list(e.args[1:]):
+                c = self.callables_of(v)
+                if not c:
+                    return []
+                out += c
+            return out
+        if isinstance(e, ast.Attribute) and self.ctx is not None and (
+                self.is_self(e.value) or (self.is_cls and isinstance(e.value, ast.Name) and e.value.id == self.selfname)):
+            return [(self.ctx, e.attr)]
+        if isinstance(e, ast.Subscript) and isinstance(e.value, ast.Dict):
+            out = []
+            for v in e.value.values:
+                c = self.callables_of(v)
+                if not c:
+                    return []
+                out += c
+            return out
+        if isinstance(e, ast.Name) and e.id in self.assigns and e.id not in self.params:
+            out = []
+            for kind, v in self.assigns[e.id]:
+                if kind != "val":
+                    return []
+                c = self.callables_of(v)
+                if not c:
+                    return []
+                out += c
+            return out
+        return []
 
-        def is_self(e):
-            if isinstance(e, ast.Name) and selfname and e.id == selfname:
-                return True
-            if isinstance(e, ast.Call) and isinstance(e.func, ast.Name) and e.func.id == "super":
-                return True
-            return False
-
-        def recv_effect(recv, name, call=False, store=False, kwargs=False):
-            """effect of recv.name"""
-            if ctx is not None and is_self(recv):
-                if is_cls:
-                    # cls.name inside a classmethod
-                    e = self.member_effect(ctx, name, call=call, store=store, kwargs=kwargs)
-                else:
-                    e = self.member_effect(ctx, name, call=call, store=store, kwargs=kwargs)
-                if e is not None:
-                    return e
-                if store:
-                    return PURE          # plain instance attribute of the proxy object
-                if call:
-                    return Eff(unres=["call of instance attribute self.%s" % name])
-                return PURE
-            cs = classes_of(recv)
-            if cs:
-                eff = PURE
-                for c in cs:
-                    e = self.member_effect(c, name, call=call, store=store, kwargs=kwargs)
-                    eff = eff.join(e if e is not None else Eff(unres=["%s.%s" % (c.__name__, name)]))
-                return eff
-            if isinstance(recv, ast.Name) and recv.id in fresh and not store:
-                return PURE
-            if name.startswith("__") and name.endswith("__"):
-                return PURE              # int.__new__(cls, v), object.__init__: not pptx code
-            e = self.by_name_effect(name, call=call, store=store, kwargs=kwargs)
-            if store:
-                if e is None or e is PURE:
-                    if isinstance(recv, ast.Name) and recv.id in fresh:
-                        return PURE
-                    return creates("assignment to .%s of a non-self object" % name)
-                return e
-            if name in NAME_MUTATING and call:
-                m = creates("call of mutating .%s() on a shared object" % name)
-                return m if e is None else e.join(m)
+    # -- effects --------------------------------------------------------------------------
+    def attr_effect(self, recv, name, call=False, store=False, kwargs=False, node=None):
+        """effect of evaluating recv.name (and calling it / assigning to it)"""
+        A, U = self.A, self.U
+        selfish = self.ctx is not None and (self.is_self(recv) or (
+            self.is_cls and isinstance(recv, ast.Name) and recv.id == self.selfname))
+        if name.startswith("__") and name.endswith("__") and not selfish:
+            return PURE              # int.__new__(cls, v), x.__class__.__name__
+        # 0. super().name: the MRO of the concrete class after the named / defining class
+        after = self.super_after(recv)
+        if after is not None:
+            mro = self.ctx.__mro__
+            rest = mro[mro.index(after) + 1:]
+            for k in rest:
+                if name in vars(k):
+                    if not U.is_pptx(k):
+                        return PURE if not (call and name in NAME_MUTATING) else creates("lxml-mutate: .%s()" % name)
+                    return A.member_effect_at(self.ctx, k, name, call=call, store=store, kwargs=kwargs,
+                                              consts=self.consts, node=node)
+            return PURE
+        if isinstance(recv, ast.Call) and isinstance(recv.func, ast.Name) and recv.func.id == "super":
+            return unres("super() outside a class context")
+        # 1. self / cls
+        if selfish:
+            e = A.member_effect(self.ctx, name, call=call, store=store, kwargs=kwargs, consts=self.consts, node=node)
             if e is not None:
                 return e
-            if not call or name in NAME_PURE:
-                return PURE
-            self.unknown_calls.setdefault(name, 0)
-            self.unknown_calls[name] += 1
-            return Eff(unres=["call .%s()" % name])
+            if store:
+                return self.self_store(name)
+            if call:
+                return unres("call of instance attribute self.%s" % name)
+            return PURE
+        # 2. an explicit class
+        cs = self.class_of(recv)
+        if cs:
+            eff = PURE
+            for c in cs:
+                e = A.member_effect(c, name, call=call, store=store, kwargs=kwargs, consts=self.consts, node=node)
+                eff = eff.join(e if e is not None else unres("%s.%s" % (c.__name__, name)))
+            return eff
+        # 3. python values and objects made here
+        t = self.type_of(recv)
+        if self.fresh(recv) and not isinstance(t, frozenset):
+            return PURE
+        if t == PY or isinstance(t, tuple):
+            return PURE
+        # 4. typed receiver: the class and its subclasses, exactly
+        if isinstance(t, frozenset) and t:
+            eff = PURE
+            fresh_obj = self.fresh(recv)
+            hit = False
+            per = []
+            if any(isinstance(c, str) for c in t):
+                hit = True
+                if store:
+                    eff = creates("assignment to .%s of an element" % name)
+                elif call and name in ("append", "insert", "addprevious", "addnext", "extend"):
+                    eff = creates("lxml-insert: .%s() on an element" % name)
+                elif call and name in NAME_MUTATING:
+                    eff = creates("lxml-mutate: .%s() on an element" % name)
+                per.append(("<lxml>", eff))
+            for c in U.expand(t):
+                if U.is_value(c):
+                    continue
+                r = U.lookup(c, name)
+                if r is not None and not U.is_pptx(r[0]) and fresh_obj:
+                    hit = True
+                    continue          # lxml call on a loose element built here
+                e = A.member_effect(c, name, call=call, store=store, kwargs=kwargs, consts=self.consts, node=node)
+                if e is None:
+                    if store:
+                        e = creates("assignment to .%s of an element" % name) \
+                            if issubclass(c, U.etree_element) and not fresh_obj else PURE
+                    elif call:
+                        continue      # a class without the member cannot be the receiver of a call that succeeds
+                    else:
+                        e = PURE
+                hit = True
+                per.append((c.__name__, e))
+                eff = eff.join(e)
+            if call and not hit:
+                return unres("call of .%s(): no class of the receiver's type has it" % name)
+            if fresh_obj and all(not isinstance(c, str) and issubclass(c, U.etree_element) for c in t):
+                # a method of a loose element built in this function: oxml-layer code can only change the
+                # tree it is handed, i.e. the loose element
+                return Eff(unres=eff.unres, prov=eff.prov) if eff.unres else PURE
+            # a static type wider than the object: the classes must agree, otherwise the step is ambiguous
+            if len({(e.level, bool(e.unres)) for _n, e in per}) > 1:
+                lv = sorted({e.level + ("?" if e.unres else "") for _n, e in per})
+                imp = [n for n, e in per if e.level != "Pure" or e.unres][:4]
+                return unres("ambiguous .%s on %s (%d classes: %s; e.g. %s)" % (
+                    name, "|".join(sorted(getattr(c, "__name__", "lxml") for c in t))[:40], len(per), "/".join(lv),
+                    ",".join(imp)))
+            return eff
+        # 5. unknown receiver: by name, within the layers visible from here
+        e = A.by_name(self.layer, name, lambda c: A.member_effect(
+            c, name, call=call, store=store, kwargs=kwargs, consts=self.consts, node=node))
+        if store:
+            if e is None:
+                if name in ("text", "tail"):
+                    return creates("assignment to .%s (lxml text)" % name)
+                return PURE          # no class of pptx gives `name` a meaning: python-object state
+            return e
+        if call and name in NAME_MUTATING:
+            m = unres("call of .%s() on a receiver of unknown type" % name)
+            return m if e is None else e.join(m)
+        if e is not None:
+            return e
+        if not call or name in NAME_PURE:
+            return PURE
+        A.unknown_calls[name] = A.unknown_calls.get(name, 0) + 1
+        return unres("call .%s()" % name)
 
-        call_funcs = set()
-        for node in ast.walk(fn):
-            if isinstance(node, ast.Call):
-                call_funcs.add(id(node.func))
+    def callable_effect(self, c, m, node):
+        if c == "class":
+            return self.A.class_ctor_effect(m)
+        if c is None:
+            return self.A.modfunc_effect(m, node, self.consts)
+        e = self.A.member_effect(c, m, call=True, consts=self.consts, node=node)
+        return e if e is not None else unres("%s.%s" % (c.__name__, m))
+
+    def self_store(self, name):
+        """self.name = ... for a plain instance attribute"""
+        ctx = self.ctx
+        if self.fn.name in ("__init__", "__new__"):
+            return PURE
+        if layer_of(ctx.__module__) == 1 or any(k.__name__ in ("Part", "OpcPackage") for k in ctx.__mro__):
+            if name == "_partname":
+                return Eff(flags=["renames a part"])
+            return creates("state of a package object: self.%s" % name)
+        return PURE
+
+    def run(self):
+        A, U = self.A, self.U
+        eff = PURE
+        fn = self.fn
+        call_funcs = {id(n.func) for n in ast.walk(fn) if isinstance(n, ast.Call)}
         for node in ast.walk(fn):
             if isinstance(node, ast.Call):
                 f = node.func
                 kw = bool(node.keywords)
                 if isinstance(f, ast.Attribute):
-                    eff = eff.join(recv_effect(f.value, f.attr, call=True, kwargs=kw))
+                    eff = eff.join(self.attr_effect(f.value, f.attr, call=True, kwargs=kw, node=node))
                 elif isinstance(f, ast.Name):
                     nm = f.id
-                    if nm == "getattr" or nm == "setattr":
-                        if len(node.args) >= 2 and isinstance(node.args[1], ast.Constant):
-                            eff = eff.join(recv_effect(node.args[0], node.args[1].value, store=(nm == "setattr")))
+                    if nm in ("getattr", "setattr"):
+                        tgt = node.args[1] if len(node.args) >= 2 else None
+                        cname = None
+                        if isinstance(tgt, ast.Constant) and isinstance(tgt.value, str):
+                            cname = tgt.value
+                        elif isinstance(tgt, ast.Name) and tgt.id in self.consts:
+                            cname = self.consts[tgt.id]
+                        if cname is not None:
+                            called = id(node) in call_funcs
+                            eff = eff.join(self.attr_effect(node.args[0], cname, call=called, store=(nm == "setattr")))
                         else:
-                            eff = eff.join(Eff(unres=["dynamic %s" % nm]))
-                    elif nm in localcls or (nm in self.U.by_name and nm not in args):
-                        for c in classes_of(f):
-                            eff = eff.join(self.class_ctor_effect(c))
-                    elif nm in self.U.funcs and nm not in args:
-                        eff = eff.join(self.modfunc_effect(nm))
-                    elif nm in BUILTIN_PURE:
+                            eff = eff.join(unres("dynamic %s in %s" % (nm, fn.name)))
+                    elif nm in self.nested:
+                        pass            # its body is part of this function's walk
+                    elif nm in self.assigns and nm not in U.by_name:
+                        cs = self.class_of(f)
+                        cb = self.callables_of(f)
+                        if cs:
+                            for c in cs:
+                                eff = eff.join(A.class_ctor_effect(c))
+                        elif cb:
+                            for c, m in cb:
+                                eff = eff.join(self.callable_effect(c, m, node))
+                        else:
+                            eff = eff.join(unres("call of local %s() in %s" % (nm, fn.name)))
+                    elif nm in self.params:
+                        if self.is_cls and nm == self.selfname and self.ctx is not None:
+                            eff = eff.join(A.class_ctor_effect(self.ctx))
+                        else:
+                            eff = eff.join(unres("call of parameter %s() in %s" % (nm, fn.name)))
+                    elif nm in U.by_name:
+                        for c in U.by_name[nm]:
+                            eff = eff.join(A.class_ctor_effect(c))
+                    elif nm in U.funcs:
+                        eff = eff.join(A.modfunc_effect(nm, node, self.consts))
+                    elif nm in BUILTIN_PURE or nm in NAME_PURE or nm in self.ext:
                         pass
-                    elif nm == (selfname if is_cls else None):
-                        eff = eff.join(self.class_ctor_effect(ctx))
                     else:
-                        eff = eff.join(Eff(unres=["call %s()" % nm]))
-                elif isinstance(f, ast.Subscript) or isinstance(f, ast.Call) or isinstance(f, ast.IfExp):
-                    cs = classes_of(f)
+                        eff = eff.join(unres("call %s()" % nm))
+                elif isinstance(f, ast.Call) and isinstance(f.func, ast.Name) and f.func.id == "getattr":
+                    pass                # handled at the inner getattr node (called = True)
+                else:
+                    cs = self.class_of(f)
+                    cb = self.callables_of(f)
                     if cs:
                         for c in cs:
-                            eff = eff.join(self.class_ctor_effect(c))
+                            eff = eff.join(A.class_ctor_effect(c))
+                    elif cb:
+                        for c, m in cb:
+                            eff = eff.join(self.callable_effect(c, m, node))
                     else:
-                        eff = eff.join(Eff(unres=["call of computed callee %s" % ast.unparse(f)[:40]]))
-                else:
-                    eff = eff.join(Eff(unres=["call of %s" % type(f).__name__]))
+                        eff = eff.join(unres("call of computed callee %s" % ast.unparse(f)[:40]))
             elif isinstance(node, ast.Attribute):
                 if id(node) in call_funcs:
                     continue
                 if isinstance(node.ctx, ast.Load):
-                    eff = eff.join(recv_effect(node.value, node.attr))
+                    eff = eff.join(self.attr_effect(node.value, node.attr))
                 else:
-                    eff = eff.join(recv_effect(node.value, node.attr, store=True))
+                    eff = eff.join(self.attr_effect(node.value, node.attr, store=True))
             elif isinstance(node, ast.Subscript) and isinstance(node.ctx, (ast.Store, ast.Del)):
                 base = node.value
-                if isinstance(base, ast.Name) and base.id in fresh:
+                if self.fresh(base):
                     continue
-                if isinstance(base, ast.Attribute) and is_self(base.value) and ctx is not None \
-                        and self.U.lookup(ctx, base.attr) is None:
-                    # self._cache[k] = v : python-side state of the proxy / part object
-                    eff = eff.join(creates("item assignment on self.%s" % base.attr))
+                if self.type_of(base) == PY and not isinstance(base, ast.Attribute):
                     continue
-                eff = eff.join(creates("item assignment on a shared object"))
+                eff = eff.join(creates("item assignment on %s" % ast.unparse(base)[:30]))
         return eff
 
 
 # ----------------------------------------------------------------------------- accessor table
-def return_kind(U, fn):
+def return_kind(U, A, cls, fn):
     """Static part of the read-surface rule: what a getter hands back."""
-    plain_names = {"str", "int", "float", "bool", "bytes", "None", "Length", "datetime", "dt.datetime", "date",
-                   "RGBColor", "PackURI", "Emu"}
-    ann = ast.unparse(fn.returns) if fn.returns is not None else None
+    t = U.ann_type(ast.unparse(fn.returns), cls) if fn.returns is not None else None
+    if t is None:
+        t = A.infer_return(cls, fn, cls)
 
-    def ann_kind(a):
-        a = a.strip().strip("'\"")
-        parts = [p.strip() for p in a.split("|")]
-        kinds = set()
-        for p in parts:
-            if p in plain_names or p.startswith("MSO_") or p.startswith("PP_") or p.startswith("XL_") or p.startswith("PROG_ID"):
-                kinds.add("plain")
-            elif p.startswith("tuple[") or p.startswith("Iterator[") or p.startswith("list[") or p.startswith("Sequence["):
-                inner = p[p.index("[") + 1:-1].replace("...", "").strip(" ,")
-                ik = {ann_kind(x) for x in inner.split(",") if x.strip()}
-                kinds.add("plain" if ik <= {"plain"} else "coll")
-            elif p in U.by_name:
-                c = U.by_name[p][0]
-                kinds.add("plain" if issubclass(c, (str, int, tuple)) else
-                          ("coll" if any(hasattr(c, m) for m in ("__iter__", "__getitem__")) else "proxy"))
-            else:
-                kinds.add("unknown")
-        if kinds <= {"plain"}:
-            return "plain"
-        if "unknown" in kinds:
+    def kind(t):
+        if t is None:
             return "unknown"
-        return "coll" if "coll" in kinds else "proxy"
-
-    if ann:
-        k = ann_kind(ann)
-        if k != "unknown":
-            return k
-    rets = [n.value for n in ast.walk(fn) if isinstance(n, ast.Return) and n.value is not None]
-    if rets:
+        if t == PY:
+            return "plain"
+        if isinstance(t, tuple):
+            k = kind(t[1])
+            return "plain" if k == "plain" else ("coll" if k in ("proxy", "coll") else "unknown")
         ks = set()
-        for r in rets:
-            if isinstance(r, ast.Call):
-                f = r.func
-                nm = f.id if isinstance(f, ast.Name) else (f.value.id if isinstance(f, ast.Attribute) and isinstance(f.value, ast.Name) else None)
-                if nm in U.by_name:
-                    c = U.by_name[nm][0]
-                    ks.add("plain" if issubclass(c, (str, int, tuple)) else
-                           ("coll" if any(hasattr(c, m) for m in ("__iter__", "__getitem__")) else "proxy"))
-                    continue
-            if isinstance(r, ast.Constant):
+        for c in t:
+            if U.is_value(c):
                 ks.add("plain")
-                continue
-            ks.add("unknown")
-        if "unknown" not in ks:
-            if ks <= {"plain"}:
-                return "plain"
-            return "coll" if "coll" in ks else "proxy"
-    return "unknown"
+            elif any(hasattr(c, m) for m in ("__iter__", "__getitem__")) and not issubclass(c, U.etree_element):
+                ks.add("coll")
+            else:
+                ks.add("proxy")
+        if ks <= {"plain"}:
+            return "plain"
+        return "coll" if "coll" in ks else "proxy"
+    return kind(t)
 
 
 def proxy_classes(U):
-    from pptx.util import lazyproperty
-
     out = []
     for live in U.classes:
         if live.__module__ not in PROXY_MODULES or live.__name__ in NOT_PROXY:
@@ -648,35 +1424,12 @@ def class_accessors(U, cls):
                 out[n] = (k, "property")
             elif isinstance(v, lazyproperty):
                 out[n] = (k, "lazyproperty")
+    if "__iter__" not in out and ("__getitem__" in out or hasattr(cls, "__iter__")) and not issubclass(cls, (str, tuple)):
+        for k in cls.__mro__:
+            if "__iter__" in vars(k):
+                out["__iter__"] = (cls, "seq")      # mix-in __iter__ (Sequence / Mapping): calls back into the class
+                break
     return sorted(out.items())
-
-
-def audit_containers(unmodelled):
-    """The `all optional` half of the container whitelist, re-read from the XSDs."""
-    try:
-        sch = Schemas()
-    except Exception as e:  # noqa
-        unmodelled.append("XSDs unreadable for the container audit: %r" % e)
-        return {}
-    res = {}
-    for tag in CONTAINERS:
-        tys = [t for t in sch.tag_types.get(tag, ()) if t in sch.ctypes]
-        if not tys:
-            unmodelled.append("container %s: no XSD type found" % tag)
-            continue
-        ok = True
-        for ty in tys:
-            e = sch.ctypes[ty][0]
-            xml = __import__("lxml.etree", fromlist=["x"]).tostring(e).decode()
-            if 'use="required"' in xml:
-                ok = False
-            cm = sch.ctype_cm(ty)
-            if not nullable(cm):
-                ok = False
-        res[tag] = ["%s:%s" % t for t in tys]
-        if not ok:
-            unmodelled.append("container %s: its schema type has a required attribute or child" % tag)
-    return res
 
 
 def nullable(cm):
@@ -692,26 +1445,50 @@ def nullable(cm):
     return False
 
 
+def audit_containers(unmodelled):
+    """The `all optional` half of the container whitelist, re-read from the XSDs."""
+    from lxml import etree
+
+    try:
+        sch = Schemas()
+    except Exception as e:  # noqa
+        unmodelled.append("XSDs unreadable for the container audit: %r" % e)
+        return {}
+    res = {}
+    for tag in CONTAINERS:
+        tys = sorted(t for t in sch.tag_types.get(tag, ()) if t in sch.ctypes)
+        if not tys:
+            unmodelled.append("container %s: no XSD type found" % tag)
+            continue
+        for ty in tys:
+            e = sch.ctypes[ty][0]
+            if 'use="required"' in etree.tostring(e).decode():
+                unmodelled.append("container %s: schema type %s:%s has a required attribute" % ((tag,) + ty))
+            if not nullable(sch.ctype_cm(ty)):
+                unmodelled.append("container %s: schema type %s:%s has a required child" % ((tag,) + ty))
+        res[tag] = ["%s:%s" % t for t in tys]
+    return res
+
+
 def main():
     U = Universe()
     A = Analyzer(U)
     unmodelled = list(U.notes)
     rows = []
     classes = proxy_classes(U)
-    # fixpoint over the memo table (recursion is cut by `inprog`; iterate until stable)
-    for _round in range(6):
+    for _round in range(8):
         A.changed = False
         A.done = set()
         tmp = []
         for cls in classes:
             for name, (owner, kind) in class_accessors(U, cls):
                 eff = A.member_effect(cls, name, call=(kind in ("seq", "method")))
-                tmp.append((cls, name, owner, kind, eff if eff is not None else Eff(unres=["no source"])))
+                tmp.append((cls, name, owner, kind, eff if eff is not None else unres("no source")))
         rows = tmp
         if not A.changed:
             break
     else:
-        unmodelled.append("effect analysis did not reach a fixpoint in 6 rounds")
+        unmodelled.append("effect analysis did not reach a fixpoint in 8 rounds")
     kf_path = os.path.join(VERIF, "known_findings.json")
     known = set()
     if os.path.exists(kf_path):
@@ -720,7 +1497,7 @@ def main():
                 known.add(e["signature"][len("accessor:"):])
     documented = set(DOCUMENTED)
     cont_types = audit_containers(unmodelled)
-    tag_ids, what_ids, name_ids = {}, {}, {}
+    tag_ids, what_ids = {}, {}
 
     def intern(d, s):
         if s not in d:
@@ -733,16 +1510,18 @@ def main():
     for cls, name, owner, kind, eff in rows:
         mem = U.src_members.get(owner, {}).get(name)
         fn = mem.get("get") if mem else None
-        rk = return_kind(U, fn) if fn is not None else "unknown"
+        rk = return_kind(U, A, cls, fn) if fn is not None else "unknown"
         if kind == "seq":
             rk = "coll"
         doc = (fn and ast.get_docstring(fn)) or ""
         sig = "%s.%s" % (owner.__name__, name)
         rec = {"cls": cls.__name__, "module": cls.__module__, "name": name, "owner": owner.__name__, "kind": kind,
                "ret": rk, "level": eff.level, "tags": sorted(eff.tags), "whats": sorted(eff.whats),
-               "unres": sorted(eff.unres), "why": {a: " > ".join(c) for a, c in sorted(eff.prov.items())}, "documented": (owner.__name__, name) in documented,
-               "sig": sig, "known": sig in known, "doc1": doc.strip().split("\n")[0][:160],
-               "line": getattr(fn, "lineno", 0), "file": (owner.__module__.replace(".", "/") + ".py")}
+               "unres": sorted(eff.unres), "flags": sorted(eff.flags),
+               "why": {a: " > ".join(c) for a, c in sorted(eff.prov.items())},
+               "documented": (owner.__name__, name) in documented,
+               "sig": sig, "known": sig in known, "doc": doc.strip()[:400],
+               "line": getattr(fn, "lineno", 0), "file": "src/" + owner.__module__.replace(".", "/") + ".py"}
         # static part of the surface rule: collections and plain data are judged, proxies are gateways
         rec["surface"] = rk != "proxy"
         if eff.unres:
@@ -761,7 +1540,7 @@ def main():
         meta_rows.append(rec)
     lines = ["(* GENERATED by tx/tx_c12.py from /repo -- do not edit *)",
              "From V.lib Require Import Prelude.",
-             "From V.model Require Import Access.",
+             "From V.model Require Import Schema Access.",
              "Open Scope N_scope.",
              "Definition containers : list tag := [%s]." % "; ".join(str(tag_ids[t]) for t in CONTAINERS),
              "Definition effects : list accessor := [\n%s\n]." % ";\n".join(coq_rows),
@@ -775,14 +1554,16 @@ def main():
     meta = {"rows": meta_rows, "containers": CONTAINERS, "container_types": cont_types,
             "tag_ids": tag_ids, "what_ids": what_ids, "unmodelled": unmodelled,
             "documented": [list(d) for d in DOCUMENTED], "classes": [c.__module__ + "." + c.__name__ for c in classes],
-            "unknown_call_names": A.unknown_calls, "proxy_modules": PROXY_MODULES}
+            "unknown_call_names": A.unknown_calls, "proxy_modules": PROXY_MODULES,
+            "rt_hints": {k: RT_HINT[k] for k in sorted(A.hints_used)}}
     with open(os.path.join(VERIF, "coq", "gen", "c12_meta.json"), "w") as f:
         json.dump(meta, f, indent=1, sort_keys=True)
     lv = {}
     for r in meta_rows:
-        lv[r["level"]] = lv.get(r["level"], 0) + 1
-    print("tx_c12: %d classes, %d accessor rows (%s), %d unresolved, %d known, %d unmodelled" % (
-        len(classes), len(meta_rows), ", ".join("%s %d" % kv for kv in sorted(lv.items())), len(unresolved),
+        k = "unresolved" if r["unres"] else r["level"]
+        lv[k] = lv.get(k, 0) + 1
+    print("tx_c12: %d classes, %d accessor rows (%s), %d known, %d unmodelled" % (
+        len(classes), len(meta_rows), ", ".join("%s %d" % kv for kv in sorted(lv.items())),
         sum(1 for r in meta_rows if r["known"]), len(unmodelled)))
 
 
